@@ -275,4 +275,14 @@ def main(argv=None):
 
 
 if __name__ == "__main__":
-    sys.exit(main())
+    try:
+        rc = main()
+    except SystemExit:
+        raise
+    except BaseException:  # an internal error of the machinery is never reported as a violation (exit 1)
+        import traceback
+
+        traceback.print_exc()
+        print("INTERNAL-ERROR: the check machinery crashed; no verdict")
+        rc = 3
+    sys.exit(rc)
